@@ -219,7 +219,7 @@ func init() {
 		core.RunLeg(c, core.Leg[engCase]{
 			Name: "N", Kind: "oracle(naive-scan)",
 			Rule: "patterns: 70% random full-syntax ASTs (half of them prefixed with the shapes the search modes recognise: literal / alternation-of-literals prefix, set at a fixed offset, literal after a leading loop, leading and trailing anchors, fixed length, leading loops, leading lookahead), 30% literals harvested from the repository's tests and corpora that compile; options random incl. RightToLeft/ECMAScript/RE2, code-gen analysis on 1/3, bitmap off 1/4; 8 inputs per pattern (pattern-directed with near-miss mutations, ≤12 runes, 1/4 with invalid UTF-8 bytes), start offsets; find / find at every offset / FindNextMatch chain / FindStringMatch / MatchString / MatchRunes compared (span + all captures) with the verif hook that attempts the program at every position in scan order with no candidate finder, prefix filter, length cut-off or bump-along. non-trivial = non-empty input; histogram lists the find modes hit",
-			N: c.N(8000, 400000), Gen: g.next, Check: c03Check, Batch: 500,
+			N: c.N(8000, 400000), Corpus: engCorpus, Gen: g.next, Check: c03Check, Batch: 500,
 		})
 		g2 := &engGen{allowRTL: true, perPat: 6, maxLen: 10, biasFind: true}
 		core.RunLeg(c, core.Leg[engCase]{
